@@ -168,6 +168,8 @@ class DataJudge(Judge):
 def parse_prog_req(req):
     """Fields of a program request: kind, width, env tokens, program bytes, plus mode info."""
     t = req.split()
+    if not t:
+        return None
     k = t[0]
     if k == "bftrace":
         return dict(kind=k, w=t[1], fuel=t[2], sin=t[3], sout=t[4], code=unhex(t[5]))
@@ -453,7 +455,16 @@ class BcRunJudge(ProgramJudge):
         return req[:200]
 
 
+class TieJudge(BcRunJudge):
+    """Exact artefact ties (bytecode text, machine code bytes, IR echo, random-IR execution): a difference
+    breaks the tie; whether the PROPERTY fails is decided by searching source programs end to end."""
+
+    def nontrivial(self, req, impl):
+        return True
+
+
 JUDGES = {
+    "tie": TieJudge(),
     "wf": WfJudge(),
     "bcrun": BcRunJudge(),
     "div": DivJudge(),
